@@ -21,7 +21,7 @@ def jobs(tier):
     for nd in ([1, 2] if tier == "quick" else [1, 2, 3]):
         for k, c in enumerate(consts if (nd == 1 or tier != "quick") else [consts[0], consts[5]]):
             out.append(Job(
-                oid="C15.a.scs.wide.nd%d.stride%d" % (nd, k), defines=["-DND=%d" % nd, "-DSTRIDE_LAST=" + c, "-DCOVER_STRIDED=%d" % (1 if 1 <= consts.index(c) <= 6 else 0)], unwind=nd + 1,
+                oid="C15.a.scs.wide.nd%d.stride%d" % (nd, k), defines=["-DND=%d" % nd, "-DSTRIDE_LAST=" + c, "-DCOVER_STRIDED=%d" % (1 if (1 <= consts.index(c) <= 5 or (consts.index(c) == 6 and nd == 1)) else 0)], unwind=nd + 1,
                 timeout=1700,
                 desc="same obligation with start,count,shape,numrecs FULL 64-bit symbolic; stride of the last dimension = %s, "
                      "of the other dimensions = 1; %d-D" % (c, nd),
